@@ -202,7 +202,7 @@ func (st *state) exec(op *plan.Op, shared *scripted) (res plan.Res) {
 	var s, p string
 	var src *scripted
 	switch op.Fn {
-	case "enc":
+	case "enc", "encchk":
 		if op.Buf > 0 {
 			if b, ok := st.bufs[op.Buf]; ok {
 				ent = b
@@ -217,7 +217,7 @@ func (st *state) exec(op *plan.Op, shared *scripted) (res plan.Res) {
 		s = op.Str()
 	case "seed", "seed2":
 		s, p = op.Str(), op.Pass()
-	case "new":
+	case "new", "newchk":
 		if op.Src != nil {
 			src = newScripted(op.Src, false)
 		}
@@ -226,7 +226,8 @@ func (st *state) exec(op *plan.Op, shared *scripted) (res plan.Res) {
 	if src != nil {
 		prev = bip39.VerifSwapRandSource(src)
 	}
-	if op.Fn == "new" && src == nil && !op.Shared && earlyrand.Wrapper != nil {
+	isNew := op.Fn == "new" || op.Fn == "newchk"
+	if isNew && src == nil && !op.Shared && earlyrand.Wrapper != nil {
 		earlyrand.Wrapper.Drain()
 	}
 	for i := 0; i < op.Spin; i++ {
@@ -253,6 +254,18 @@ func (st *state) exec(op *plan.Op, shared *scripted) (res plan.Res) {
 			if op.Keep {
 				st.keep = append(st.keep, kept{i: op.I, s: out})
 			}
+		case "encchk", "newchk":
+			var out string
+			var err error
+			if op.Fn == "encchk" {
+				out, err = bip39.NewMnemonicByEntropy(ent, bip39.Language(op.L))
+			} else {
+				out, err = bip39.NewMnemonic(int(op.N), bip39.Language(op.L))
+			}
+			res.Out, res.Err = hex.EncodeToString([]byte(out)), errInfo(err)
+			res.Err2 = errInfo(bip39.CheckMnemonic(out, bip39.Language(op.L)))
+			b := bip39.IsMnemonicValid(out, bip39.Language(op.L))
+			res.B, res.OutOK = &b, true
 		case "chk":
 			res.Err = errInfo(bip39.CheckMnemonic(s, bip39.Language(op.L)))
 			res.OutOK = true
@@ -341,11 +354,11 @@ func (st *state) exec(op *plan.Op, shared *scripted) (res plan.Res) {
 		bip39.VerifSwapRandSource(prev)
 		res.Reads = src.log
 	}
-	if op.Fn == "new" && op.Shared && shared != nil {
+	if isNew && op.Shared && shared != nil {
 		// attribution happens in the parent through goroutine ids
 		res.Info = append(res.Info, "goid="+strconv.FormatInt(goid(), 10))
 	}
-	if op.Fn == "new" && src == nil && !op.Shared && earlyrand.Wrapper != nil {
+	if isNew && src == nil && !op.Shared && earlyrand.Wrapper != nil {
 		for _, e := range earlyrand.Wrapper.Drain() {
 			ev := plan.ReadEv{Req: e.Req, N: e.N, D: hex.EncodeToString(e.Data)}
 			if e.Err != nil {
@@ -354,7 +367,7 @@ func (st *state) exec(op *plan.Op, shared *scripted) (res plan.Res) {
 			res.Reads = append(res.Reads, ev)
 		}
 	}
-	if op.Fn == "enc" {
+	if op.Fn == "enc" || op.Fn == "encchk" {
 		res.IA = bufAfter(ent)
 	}
 	return res
